@@ -172,6 +172,12 @@ func (m *IDMap) real(model string) string {
 	if v, ok := m.toReal[model]; ok {
 		return v
 	}
+	if strings.HasPrefix(model, "lc:") {
+		return strings.ToLower(m.real(strings.TrimPrefix(model, "lc:")))
+	}
+	if strings.HasPrefix(model, "pad:") {
+		return m.real(strings.TrimPrefix(model, "pad:")) + " "
+	}
 	if model == "zz" {
 		return "ZZZZZZ"
 	}
@@ -209,6 +215,9 @@ func abstractText(v string) string {
 	}
 	if v == uniTitle {
 		return "UNI"
+	}
+	if v == "\u00a0\u3000\u00a0" {
+		return "UBLANK"
 	}
 	return v
 }
